@@ -57,6 +57,8 @@ Checks == <<
   <<"SourceOrder", SourceOrder(OL)>>,
   <<"CompiledFromAccepted", CompiledFromAccepted(OL)>>,
   <<"AllOrNothing", AllOrNothing(OL, OP, OO, OE)>>,
+  <<"BadKeepStatus", BadKeepStatus(OL, OP, OE)>>,
+  <<"BorrowedMeansLent", BorrowedMeansLent(OL, OP, OE)>>,
   <<"FreshMeansUntouched", FreshMeansUntouched(T.req, OL, OP, OO, OE)>>,
   <<"SearcherOrder", SearcherOrder(OL)>>,
   <<"SearcherSeesSourceTime", SearcherSeesSourceTime(OL)>>,
